@@ -113,6 +113,8 @@ def build_pool(pseed, ctx):
     # under too coarse a key, or fails to reset, shows when siblings follow each other
     base = configs.random_recipe(rng, {"maxw": 8, "maxh": 8, "max_slices": (2, 2), "max_dwt": 2})
     base["w"], base["h"] = 8, 8
+    for kk in ("cw", "ch", "lo", "to"):
+        base.pop(kk, None)
     base["pics"]["n"] = 2 if base["pcm"] else 1
     sib = []
     for attr in rng.sample(["cdf", "cdf", "range", "wi", "slices", "d", "qm"], 3):
